@@ -11,7 +11,7 @@ BOUNDS = ("two symbolic runs per obligation on 3 program templates (17, 15, 15 s
           "(a) origin o vs o+D, both symbolic, every address >= $100 in both runs: every statement's bytes equal except "
           "absolute references to own labels, whose address field changes by exactly D; displacements equal; listing "
           "addresses and label values shift by D; (b) consistent label renamings (enumerated bijections to non-register "
-          "names, incl. names that contain register letters or mnemonics); (c) white space / comment / mnemonic-case "
+          "names, incl. names that contain register letters or mnemonics and two-letter names made of register letters); (c) white space / comment / mnemonic-case "
           "variants of every line (enumerated text, symbolic values); (d) suffixes appended after the last statement "
           "(instructions, data, new labels): all bytes, addresses and symbol values of the prefix unchanged")
 OUTSIDE = "label references with * or / (excluded by the property); renaming to register names (excluded by the property)"
